@@ -27,9 +27,49 @@ theorem monotone (v : Val) (sn sd : Nat) (t1 t2 : Thr) (ha : 0 < (alertOf v sn s
     (hle : thrLe t1 t2 = true) (l : String) (h : levelOfConcern v sn sd t2 = some l) :
     levelOfConcern v sn sd t1 = some l := shown_mono v sn sd t1 t2 ha hd1 hd2 hle l h
 
+/-- the metrics that get a row at a threshold, in table order, with their markers -/
+def shownRows (thr : Thr) (c : Node) : List (String × String) :=
+  (items c).filterMap (fun i => (levelOfConcern i.value i.scaleNum i.scaleDen thr).map (fun l => (i.symbol, l)))
+
+/-- **raising the threshold only removes rows, for whole tables**: the rows shown at the higher threshold
+    are a sub-list (same order, same markers) of the rows shown at the lower one -/
+theorem threshold_only_removes_rows (c : Node) (t1 t2 : Thr)
+    (hitems : ∀ i ∈ items c, 0 < (alertOf i.value i.scaleNum i.scaleDen).den)
+    (hd1 : ∀ s x, t1 = .fin s x → 0 < x.den) (hd2 : ∀ s x, t2 = .fin s x → 0 < x.den) (hle : thrLe t1 t2 = true) :
+    (shownRows t2 c).Sublist (shownRows t1 c) := by
+  unfold shownRows
+  generalize hl : items c = l at hitems
+  clear hl
+  induction l with
+  | nil => exact List.Sublist.slnil
+  | cons i rest ih =>
+    have ih' := ih (fun j hj => hitems j (List.mem_cons_of_mem _ hj))
+    simp only [List.filterMap_cons]
+    cases h2 : levelOfConcern i.value i.scaleNum i.scaleDen t2 with
+    | none =>
+      simp only [Option.map_none]
+      cases h1 : levelOfConcern i.value i.scaleNum i.scaleDen t1 with
+      | none => simpa using ih'
+      | some l1 => simpa using List.Sublist.cons _ ih'
+    | some l2 =>
+      have h1 := monotone i.value i.scaleNum i.scaleDen t1 t2 (hitems i List.mem_cons_self) hd1 hd2 hle l2 h2
+      simp only [h1, Option.map_some]
+      exact List.Sublist.cons₂ _ ih'
+
 /-- **--verbose shows every metric** (threshold 0; likewise any negative threshold) -/
 theorem verbose_all (v : Val) (sn sd : Nat) : (levelOfConcern v sn sd (.fin false ⟨0, 1⟩)).isSome = true :=
   verbose_shows_all v sn sd false ⟨0, 1⟩ (Or.inr rfl)
+
+/-- **--verbose shows every metric, for whole tables**: one row per item -/
+theorem verbose_shows_every_row (c : Node) : (shownRows (.fin false ⟨0, 1⟩) c).map (·.1) = (items c).map (·.symbol) := by
+  unfold shownRows
+  induction items c with
+  | nil => rfl
+  | cons i rest ih =>
+    have h := verbose_all i.value i.scaleNum i.scaleDen
+    cases hl : levelOfConcern i.value i.scaleNum i.scaleDen (.fin false ⟨0, 1⟩) with
+    | none => rw [hl] at h; cases h
+    | some l => simp [List.filterMap_cons, hl, ih]
 
 /-- the regenerated flag table: --verbose is threshold 0, --critical is 30, --no-verbose is 1 -/
 theorem threshold_flags : Gen.Tables.thresholdFlags = [("verbose", 0, 1), ("no-verbose", 1, 1), ("critical", 30, 1)] := by
